@@ -118,8 +118,47 @@ fn exercise_string_value(api: &str, s: &str, rep: &mut Report) {
                 let _ = r == v;
                 let _ = v == r.to_string();
                 let _ = r.to_string() == v;
+                // against other, valid and invalid, strings: every comparison operator the type implements
+                for other in ["x", "a b", "\u{e9}", "", "\t", "e\u{301}"] {
+                    let _ = v == other;
+                    let _ = other == v;
+                    let _ = v == *other;
+                    let _ = v == other.to_string();
+                    let _ = other.to_string() == v;
+                }
             });
         }};
+    }
+    // the same value obtained through the DECODER (which applies its own, sometimes laxer, checks)
+    let decoded_route = |ty: u16, rep: &mut Report| -> Option<StunAttribute> {
+        let mut m = vec![0x01, 0x01, 0, 0, 0x21, 0x12, 0xA4, 0x42];
+        m.extend_from_slice(&[7u8; 12]);
+        crate::refs::codec::push_tlv(&mut m, ty, s.as_bytes());
+        let l = (m.len() - 20) as u16;
+        m[2..4].copy_from_slice(&l.to_be_bytes());
+        let dec = stun_rs::MessageDecoderBuilder::default().build();
+        match np("MessageDecoder::decode", &cls, &inp, rep, || dec.decode(&m).ok().map(|(msg, _)| msg.attributes().first().cloned())) {
+            Some(Some(Some(a))) => Some(a),
+            _ => None,
+        }
+    };
+    match api {
+        "UserName::new" => {
+            if let Some(StunAttribute::UserName(v)) = decoded_route(0x0006, rep) {
+                common!(v);
+            }
+        }
+        "Realm::new" => {
+            if let Some(StunAttribute::Realm(v)) = decoded_route(0x0014, rep) {
+                common!(v);
+            }
+        }
+        "Nonce::new" => {
+            if let Some(StunAttribute::Nonce(v)) = decoded_route(0x0015, rep) {
+                common!(v);
+            }
+        }
+        _ => {}
     }
     match api {
         "UserName::new" => {
@@ -791,7 +830,7 @@ pub fn run(ctx: &RunCtx) -> i32 {
         rep,
         Finish {
             level: "exploration",
-            rule: format!("{} strings (every string of length <=4 (thorough: <=5) over a {}-symbol alphabet incl. quotes, backslash, TAB, 2-/3-/4-byte and combining characters, plus every string of length <=3 (thorough <=4) over that alphabet widened by 13 normalisation-sensitive code points (NFC growing / shrinking, Hangul jamo, fullwidth, non-ASCII spaces, default-ignorables, DEL, NUL) containing at least one of them, those code points before / after / repeated at lengths around 127 / 254 / 508 / 763, plus lengths 507..510 and 762..764) through every string-taking constructor / conversion (UserName, Realm, Nonce, Nonce::new_nonce_cookie x 4 flag sets, Software, Padding, ErrorCode x 7 codes, UserHash, HMACKey short- and long-term x 3 positions x 4 algorithms) and the accessors of every value built; every nonce 'obMatJos2' + 4 alphabet symbols + {} suffixes through is_nonce_cookie / security_features; every u16 through MessageType/MessageMethod/AttributeType/AlgorithmId/ErrorCode/IcmpCode conversions, every u8 through MessageClass/AddressFamily/IcmpType; every attribute of the menu (and decoded Unknown / integrity / fingerprint forms) through all 39 is_/as_ accessors, the matching expect_, attribute_type, Debug, Clone; build(k<=3).clone.mutate-either(j<=2).read-both for PasswordAlgorithms (2 construction routes), UnknownAttributes and the agent's StunAttributes against a Vec model; UnknownAttributes built from long shaped lists (ascending / descending runs of 0..=100 entries, a run followed by out-of-order or duplicate entries) by both routes, cloned, then extended on either copy by a smaller / inside / equal / larger value, against the list model. Non-trivial = distinct input for which a value was actually constructed and exercised", n_str, ALPHABET.len(), suffixes.len()),
+            rule: format!("{} strings (every string of length <=4 (thorough: <=5) over a {}-symbol alphabet incl. quotes, backslash, TAB, 2-/3-/4-byte and combining characters, plus every string of length <=3 (thorough <=4) over that alphabet widened by 13 normalisation-sensitive code points (NFC growing / shrinking, Hangul jamo, fullwidth, non-ASCII spaces, default-ignorables, DEL, NUL) containing at least one of them, those code points before / after / repeated at lengths around 127 / 254 / 508 / 763, plus lengths 507..510 and 762..764) through every string-taking constructor / conversion (UserName, Realm, Nonce, Nonce::new_nonce_cookie x 4 flag sets, Software, Padding, ErrorCode x 7 codes, UserHash, HMACKey short- and long-term x 3 positions x 4 algorithms) and the accessors and every comparison operator (against the value's own text and six other strings) of every value built, and of the value obtained by DECODING the same bytes as USERNAME / REALM / NONCE; every nonce 'obMatJos2' + 4 alphabet symbols + {} suffixes through is_nonce_cookie / security_features; every u16 through MessageType/MessageMethod/AttributeType/AlgorithmId/ErrorCode/IcmpCode conversions, every u8 through MessageClass/AddressFamily/IcmpType; every attribute of the menu (and decoded Unknown / integrity / fingerprint forms) through all 39 is_/as_ accessors, the matching expect_, attribute_type, Debug, Clone; build(k<=3).clone.mutate-either(j<=2).read-both for PasswordAlgorithms (2 construction routes), UnknownAttributes and the agent's StunAttributes against a Vec model; UnknownAttributes built from long shaped lists (ascending / descending runs of 0..=100 entries, a run followed by out-of-order or duplicate entries) by both routes, cloned, then extended on either copy by a smaller / inside / equal / larger value, against the list model. Non-trivial = distinct input for which a value was actually constructed and exercised", n_str, ALPHABET.len(), suffixes.len()),
             assumptions: vec!["the documented expect_* panic on a type mismatch is not exercised".into()],
             required_symbols: vec!["string-constructors", "cookie-nonces", "scalar-sweeps", "attribute-accessors", "clone-sequences", "cookie-flags-roundtrip", "extra-api"],
             min_outcomes: 2,
